@@ -14,21 +14,22 @@ structure Abs where
 def Abs.empty : Abs := ⟨[], fun _ => []⟩
 
 /-- What a `Pop` may do on the specification.  `n` is the byte limit handed to `Consume`
-(`math.MaxInt32`, or the RFC 7540 write-throttle limit; always positive). -/
-inductive PopSpec (e : Env) (a : Abs) : Res → Env → Abs → Prop
+(`math.MaxInt32`, or the RFC 7540 write-throttle limit; always positive).  `strict` switches the clause
+"nothing is returned only if nothing is sendable" on (it is proved for three schedulers, not for RFC 7540). -/
+inductive PopSpec (strict : Prop) (e : Env) (a : Abs) : Res → Env → Abs → Prop
   /-- control frames first, in FIFO order -/
-  | ctl {f : Frame} {rest : List Frame} : a.ctl = f :: rest → PopSpec e a (.frame f) e ⟨rest, a.q⟩
+  | ctl {f : Frame} {rest : List Frame} : a.ctl = f :: rest → PopSpec strict e a (.frame f) e ⟨rest, a.q⟩
   /-- the head of one stream's FIFO, written whole -/
   | whole {id : Nat} {f : Frame} {rest : List Frame} {e' : Env} {n : Int} :
       a.ctl = [] → a.q id = f :: rest → 0 < n → f.consume e n = (e', .whole f) →
-      PopSpec e a (.frame f) e' ⟨[], upd a.q id rest⟩
+      PopSpec strict e a (.frame f) e' ⟨[], upd a.q id rest⟩
   /-- a prefix of the head DATA frame; the remainder stays at the head -/
   | split {id : Nat} {f c r : Frame} {rest : List Frame} {e' : Env} {n : Int} :
       a.ctl = [] → a.q id = f :: rest → 0 < n → f.consume e n = (e', .split c r) →
-      PopSpec e a (.frame c) e' ⟨[], upd a.q id (r :: rest)⟩
+      PopSpec strict e a (.frame c) e' ⟨[], upd a.q id (r :: rest)⟩
   /-- nothing: only if no queued frame is sendable under the windows -/
-  | none : a.ctl = [] → (∀ id f rest, a.q id = f :: rest → ∃ e', f.consume e maxInt32 = (e', .none)) →
-      PopSpec e a .none e a
+  | none : a.ctl = [] → (strict → ∀ id f rest, a.q id = f :: rest → ∃ e', f.consume e maxInt32 = (e', .none)) →
+      PopSpec strict e a .none e a
 
 /-- Effect of the other calls on the specification state. -/
 def Abs.applyOp (a : Abs) : Op → Abs
@@ -42,11 +43,11 @@ def envOp (e : Env) : Op → Env
   | _ => e
 
 /-- One step of the specification. -/
-inductive StepSpec (e : Env) (a : Abs) : Op → Res → Env → Abs → Prop
-  | pop {h : Option Nat} {r : Res} {e' : Env} {a' : Abs} : PopSpec e a r e' a' → StepSpec e a (.pop h) r e' a'
+inductive StepSpec (strict : Prop) (e : Env) (a : Abs) : Op → Res → Env → Abs → Prop
+  | pop {h : Option Nat} {r : Res} {e' : Env} {a' : Abs} : PopSpec strict e a r e' a' → StepSpec strict e a (.pop h) r e' a'
   /-- random scheduler only: the caller's report of the served stream was not a legal outcome -/
-  | reject {h : Option Nat} : StepSpec e a (.pop h) .reject e a
-  | other {op : Op} : (∀ h, op ≠ .pop h) → StepSpec e a op .ok (envOp e op) (a.applyOp op)
+  | reject {h : Option Nat} : StepSpec strict e a (.pop h) .reject e a
+  | other {op : Op} : (∀ h, op ≠ .pop h) → StepSpec strict e a op .ok (envOp e op) (a.applyOp op)
 
 /-! ### The WriteScheduler contract, tracked on the set of open streams -/
 
@@ -97,11 +98,11 @@ def Ledger.step (a : Abs) (L : Ledger) : Op → Res → Ledger
   | _, _ => L
 
 /-- A run of the specification, with its ledger. -/
-inductive SpecRun : Env → Abs → Ledger → List Op → List Res → Env → Abs → Ledger → Prop
-  | nil {e a L} : SpecRun e a L [] [] e a L
+inductive SpecRun (strict : Prop) : Env → Abs → Ledger → List Op → List Res → Env → Abs → Ledger → Prop
+  | nil {e a L} : SpecRun strict e a L [] [] e a L
   | cons {e a L op r e1 a1 ops rs e2 a2 L2} :
-      StepSpec e a op r e1 a1 → SpecRun e1 a1 (L.step a op r) ops rs e2 a2 L2 →
-      SpecRun e a L (op :: ops) (r :: rs) e2 a2 L2
+      StepSpec strict e a op r e1 a1 → SpecRun strict e1 a1 (L.step a op r) ops rs e2 a2 L2 →
+      SpecRun strict e a L (op :: ops) (r :: rs) e2 a2 L2
 
 /-- Well-formedness of the specification state w.r.t. the open set. -/
 structure AbsWF (a : Abs) (opn : Nat → Bool) : Prop where
@@ -123,8 +124,8 @@ theorem isControl_streamID_of_pushOK {opn : Nat → Bool} {f : Frame} (h : pushO
 
 /-- One specification step keeps the state well formed, keeps the ledger balanced, and a popped
 frame is never the zero request. -/
-theorem step_preserves {e e1 : Env} {a a1 : Abs} {L : Ledger} {opn : Nat → Bool} {op : Op} {r : Res}
-    (hwf : AbsWF a opn) (hl : LedgerOK a L) (hok : OpOK opn op) (hs : StepSpec e a op r e1 a1) :
+theorem step_preserves {strict : Prop} {e e1 : Env} {a a1 : Abs} {L : Ledger} {opn : Nat → Bool} {op : Op} {r : Res}
+    (hwf : AbsWF a opn) (hl : LedgerOK a L) (hok : OpOK opn op) (hs : StepSpec strict e a op r e1 a1) :
     AbsWF a1 (opnOp opn op) ∧ LedgerOK a1 (L.step a op r) ∧ r ≠ .frame .empty ∧ r ≠ .panic := by
   cases hs with
   | reject => exact ⟨by simpa [opnOp] using hwf, by simpa [Ledger.step] using hl, by simp, by simp⟩
@@ -260,8 +261,8 @@ theorem step_preserves {e e1 : Env} {a a1 : Abs} {L : Ledger} {opn : Nat → Boo
 every token ever pushed on a stream is, in push order, either already handed out by `Pop`, dropped by a
 `CloseStream`, or still queued — nothing is lost, duplicated or reordered; `Pop` never yields the zero
 request and no call panics. -/
-theorem specRun_ledger {e e' : Env} {a a' : Abs} {L L' : Ledger} {opn : Nat → Bool} {ops : List Op} {rs : List Res}
-    (hwf : AbsWF a opn) (hl : LedgerOK a L) (hc : Contract opn ops) (hr : SpecRun e a L ops rs e' a' L') :
+theorem specRun_ledger {strict : Prop} {e e' : Env} {a a' : Abs} {L L' : Ledger} {opn : Nat → Bool} {ops : List Op} {rs : List Res}
+    (hwf : AbsWF a opn) (hl : LedgerOK a L) (hc : Contract opn ops) (hr : SpecRun strict e a L ops rs e' a' L') :
     LedgerOK a' L' ∧ (∀ r ∈ rs, r ≠ .frame .empty ∧ r ≠ .panic) := by
   induction hr generalizing opn with
   | nil => exact ⟨hl, by simp⟩
